@@ -6,5 +6,6 @@ import "verifharness/core"
 func All() map[string]core.Prop {
 	return map[string]core.Prop{
 		"C01": C01{},
+		"C02": C02{},
 	}
 }
